@@ -62,7 +62,11 @@ OptNames == {"ignore_init_summary", "returns_multiple_items", "returns_named_val
 \* trim_doctest_flags and warn_unknown_params change no branch that decides offsets, sections or items:
 \* they are varied by the harness on every case (both values), not by the model.
 \* aliasmod: a module in which every documented name is imported from a package that is not loaded (unresolvable alias)
-Parents == {"none", "module", "class", "function", "init", "property", "aliasmod"}
+\* tuplefn / genfn / tupleprop / tuple0fn / gen1fn / gen2fn / iterfn: function (property) whose return annotation is tuple[a, b],
+\* Generator[(a,b), (a,b), (a,b)], tuple[a, b], tuple[()], Generator[a], Generator[a, None], Iterator[a]: expressions with fewer
+\* elements than a docstring may document items / than _annotation_from_parent indexes (it runs under suppress(Exception))
+Parents == {"none", "module", "class", "function", "init", "property", "aliasmod", "tuplefn", "genfn", "tupleprop", "tuple0fn", "gen1fn", "gen2fn", "iterfn"}
+PropParents == {"property", "tupleprop"}
 
 ItemKinds == {"parameters", "other_parameters", "raises", "warns", "functions", "classes", "modules", "attributes"}
 RetKinds == {"returns", "yields", "receives"}
@@ -90,7 +94,9 @@ Rich == Mid \cup {Sec(K, TRUE) : K \in SecKinds}
 \* regression domain: small alphabet on which the repaired crashes were reachable with three lines
 Defect == {Text("plain"), Item(4, "F1"), Item(4, "F4"), Item(4, "F5"),
            Sec("returns", FALSE), Sec("receives", FALSE), Sec("attributes", FALSE), Sec("parameters", FALSE)}
-Alphabet == CASE Alpha = "core" -> Core [] Alpha = "mid" -> Mid [] Alpha = "rich" -> Rich [] OTHER -> Defect
+\* regression domain for the parent-annotation look-ups: one to three items without a type in returns-like sections (five lines)
+Defect2 == {Sec("returns", FALSE), Sec("yields", FALSE), Sec("receives", FALSE), Item(4, "F5")}
+Alphabet == CASE Alpha = "core" -> Core [] Alpha = "mid" -> Mid [] Alpha = "rich" -> Rich [] Alpha = "defect2" -> Defect2 [] OTHER -> Defect
 
 \* ---- predicates on lines (what the regexes / string tests of the code compute) ----------------------
 N == Len(lines)
@@ -557,17 +563,17 @@ Finish ==
          eligible == secs # <<>> /\ (IF secs = <<>> THEN FALSE ELSE secs[1].kind = "text")
      IN \E property_summary \in BOOLEAN :
        IF property_summary
-         THEN /\ eligible /\ CanRead("returns_type_in_property_summary", TRUE) /\ "property" \in pcand
-              /\ opts' = [opts EXCEPT !["returns_type_in_property_summary"] = "T"] /\ pcand' = {"property"} /\ excl' = excl
+         THEN /\ eligible /\ CanRead("returns_type_in_property_summary", TRUE) /\ pcand \cap PropParents # {}
+              /\ opts' = [opts EXCEPT !["returns_type_in_property_summary"] = "T"] /\ pcand' = pcand \cap PropParents /\ excl' = excl
               /\ LET fl == FirstNonBlank(secs[1].tl) IN
                  IF fl # -1 /\ HasColon(L(fl))
                    THEN /\ sections' = Append(secs, SecRec("returns", "none", -1, <<>>,
                                           <<[first |-> -1, body |-> <<>>, name |-> "e", ann |-> "doc", dflt |-> "-", d |-> "c"]>>, <<>>))
                         /\ flags' = [flags EXCEPT !.propsum = TRUE] /\ pc' = "done" /\ UNCHANGED crash
                    ELSE /\ sections' = secs /\ pc' = "done" /\ UNCHANGED <<crash, flags>>
-         ELSE /\ ~eligible \/ opts["returns_type_in_property_summary"] # "T" \/ pcand # {"property"}
-              /\ excl' = (IF ~eligible \/ opts["returns_type_in_property_summary"] = "F" \/ "property" \notin pcand
-                            THEN excl ELSE excl \cup {<<"returns_type_in_property_summary", "property">>})
+         ELSE /\ ~eligible \/ opts["returns_type_in_property_summary"] # "T" \/ ~(pcand \subseteq PropParents)
+              /\ excl' = (IF ~eligible \/ opts["returns_type_in_property_summary"] = "F" \/ pcand \cap PropParents = {}
+                            THEN excl ELSE excl \cup {<<"returns_type_in_property_summary", k>> : k \in PropParents})
               /\ sections' = secs /\ pc' = "done" /\ UNCHANGED <<opts, pcand, crash, flags>>
   /\ UNCHANGED <<input, offset, in_code, cur>>
 
